@@ -106,16 +106,106 @@ def dask_continuation(chk, prefix):
     # every wrapper gets an id serialized for it alone, at its construction (ids are single-use)
     ctors = [n for n in ast.walk(al.node) if isinstance(n, ast.Call) and unparse(n.func).endswith("_RunWithEliotContext")]
     chk.need(ctors, "dask._add_logging no longer constructs _RunWithEliotContext")
+    parent = {}
+    for x in ast.walk(al.node):
+        for ch in ast.iter_child_nodes(x):
+            parent[id(ch)] = x
+
+    def enclosing_def(x):
+        while id(x) in parent:
+            x = parent[id(x)]
+            if isinstance(x, (ast.FunctionDef, ast.AsyncFunctionDef, ast.Lambda)):
+                return x
+        return al.node
+
+    def own(fn):
+        # nodes of fn, not of the functions nested in it
+        todo = list(fn.body) if not isinstance(fn, ast.Lambda) else [fn.body]
+        while todo:
+            x = todo.pop()
+            yield x
+            if not isinstance(x, (ast.FunctionDef, ast.AsyncFunctionDef, ast.Lambda)):
+                todo.extend(ast.iter_child_nodes(x))
+
+    def local_value(fn, name):
+        binds = [x for x in own(fn) if isinstance(x, ast.Assign) and any(isinstance(t, ast.Name) and t.id == name for t in x.targets)]
+        others = [x for x in own(fn) if isinstance(x, ast.Name) and x.id == name and isinstance(x.ctx, ast.Store)]
+        if len(binds) == 1 and len(others) == 1 and len(binds[0].targets) == 1:
+            return binds[0].value
+        return None
+
+    def is_fresh_id(e):
+        return any(isinstance(x, ast.Call) and isinstance(x.func, ast.Attribute) and x.func.attr == "serialize_task_id" for x in ast.walk(e))
+
     problems = []
     for c in ctors:
+        fn = enclosing_def(c)
         kw = {k.arg: k.value for k in c.keywords}
         tid = kw.get("task_id")
-        fresh = tid is not None and any(isinstance(x, ast.Call) and isinstance(x.func, ast.Attribute) and x.func.attr == "serialize_task_id" for x in ast.walk(tid))
+        if tid is None and None in kw:
+            # `_RunWithEliotContext(func=func, **fields_for(key))`: look at the mapping the local helper returns
+            e = kw[None]
+            hs = [h for h in ast.walk(al.node) if isinstance(h, ast.FunctionDef) and isinstance(e, ast.Call) and isinstance(e.func, ast.Name) and h.name == e.func.id]
+            rets_ = [r for h in hs for r in own(h) if isinstance(r, ast.Return)]
+            rv = rets_[0].value if len(hs) == 1 and len(rets_) == 1 else None
+            if isinstance(rv, ast.Subscript) and isinstance(rv.value, ast.Name):
+                # `if key not in memo: memo[key] = dict(task_id=...)`; `return memo[key]`
+                cont = rv.value.id
+                stores = [y for y in own(hs[0]) if isinstance(y, ast.Assign) and len(y.targets) == 1 and isinstance(y.targets[0], ast.Subscript) and unparse(y.targets[0].value) == cont]
+                tests = [y for y in own(hs[0]) if isinstance(y, ast.Compare) and len(y.ops) == 1 and isinstance(y.ops[0], (ast.In, ast.NotIn)) and unparse(y.comparators[0]) == cont]
+                if len(stores) == 1 and tests and is_fresh_id(stores[0].value):
+                    problems.append("the wrapper's task_id comes from %s, where it is remembered in %s and reused (line %d): the tasks that share the entry continue the task at the same position (duplicate task_level)"
+                                    % (hs[0].name, cont, tests[0].lineno))
+                    continue
+            lay = common.dict_layers(rv) if rv is not None else None
+            tids = [l[2] for l in (lay or []) if l[0] == "key" and isinstance(l[1], ast.Constant) and l[1].value == "task_id"]
+            if len(tids) != 1:
+                raise AnalysisError("dask._add_logging: the wrapper's fields come from %s (not modelled)" % unparse(e)[:60])
+            tid, fn = tids[0], hs[0]
+        if isinstance(tid, ast.Name):
+            v = local_value(fn, tid.id)
+            if v is not None:
+                tid = v  # `tid = str(ctx.serialize_task_id(), ...)` in the same function, evaluated with the construction
+        fresh = tid is not None and is_fresh_id(tid)
         if not fresh:
             problems.append("a wrapper is built with task_id=%s, which is not a serialize_task_id() evaluated for this wrapper: several wrappers continue the task at the same position (duplicate task_level)"
                             % (unparse(tid)[:50] if tid is not None else "<from a shared mapping>"))
-    chk.req(not problems, "%s.integration" % prefix, "dask._add_logging:one-fresh-id-per-wrapped-task", chk.where(al), good="task_id=str(ctx.serialize_task_id(), ...) at each wrapper construction",
+            continue
+        # the construction runs once per wrapped task: it is not remembered per key
+        if not isinstance(fn, ast.Lambda):
+            for d in fn.decorator_list:
+                if "cache" in unparse(d).lower() or "memo" in unparse(d).lower():
+                    problems.append("the wrapper (and its serialize_task_id()) is built in %s, which is decorated with %s: every task that maps to the same arguments continues the task at the same position"
+                                    % (fn.name, unparse(d)))
+        x = c
+        while id(x) in parent and parent[id(x)] is not fn:
+            x = parent[id(x)]
+            if isinstance(x, ast.Assign) and any(isinstance(t, ast.Subscript) for t in x.targets):
+                store = [t for t in x.targets if isinstance(t, ast.Subscript)][0]
+                cont = unparse(store.value)
+                tests = [y for y in own(fn) if isinstance(y, ast.Compare) and len(y.ops) == 1 and isinstance(y.ops[0], (ast.In, ast.NotIn)) and unparse(y.comparators[0]) == cont]
+                gets = [y for y in own(fn) if isinstance(y, ast.Call) and isinstance(y.func, ast.Attribute) and y.func.attr in ("get", "setdefault") and unparse(y.func.value) == cont]
+                if tests or gets:
+                    problems.append("the wrapper built at line %d is remembered in %s and reused (line %d): the tasks that share the entry continue the task at the same position (duplicate task_level)"
+                                    % (c.lineno, cont, (tests + gets)[0].lineno))
+            if isinstance(x, ast.Call) and x is not c and isinstance(x.func, ast.Attribute) and x.func.attr == "setdefault":
+                problems.append("the wrapper built at line %d is remembered with %s(...) and reused" % (c.lineno, unparse(x.func)))
+    chk.req(not problems, "%s.integration" % prefix, "dask._add_logging:one-fresh-id-per-wrapped-task", chk.where(al), good="task_id=str(ctx.serialize_task_id(), ...) at each wrapper construction, not remembered between tasks",
             fail="; ".join(problems))
+    # the callable put in the graph is the wrapper just built, not a copy of a shared one
+    if not problems:
+        for fn in [al.node] + [x for x in ast.walk(al.node) if isinstance(x, (ast.FunctionDef, ast.AsyncFunctionDef)) and x is not al.node]:
+            for r in own(fn):
+                if isinstance(r, ast.Return) and isinstance(r.value, ast.BinOp) and isinstance(r.value.op, ast.Add) and isinstance(r.value.left, ast.Tuple) and len(r.value.left.elts) == 1:
+                    e = r.value.left.elts[0]
+                    if isinstance(e, ast.Name):
+                        e = local_value(fn, e.id) or e
+                    if any(e is c for c in ctors):
+                        continue
+                    if isinstance(e, ast.Call) and isinstance(e.func, ast.Name) and any(isinstance(h, ast.FunctionDef) and h.name == e.func.id and any(enclosing_def(c) is h for c in ctors)
+                                                                                        for h in ast.walk(al.node)):
+                        continue  # a local helper that builds the wrapper (checked above)
+                    raise AnalysisError("dask._add_logging: the task's callable is %s, not a wrapper built at that point (not modelled)" % unparse(e)[:60])
 
 
 def stdlib_handler(chk, prefix):
@@ -140,7 +230,7 @@ _DONE_KEY = "_integration_done"
 RULES = {
     "C03": [twisted_deferred_context],
     "C04": [twisted_deferred_context],
-    "C05": [twisted_deferred_context],
+    "C05": [twisted_deferred_context, dask_continuation],
     "C06": [dask_continuation],
     "C02": [dask_continuation],
     "C07": [stdlib_handler],
